@@ -68,6 +68,8 @@ def _frame(job):
     nb = rnd.choice([1, 2, 3, 5, 8])
     ncf, nsf = rnd.choice([(0, 1), (0, 1), (1, 1), (0, 2), (1, 2), (2, 1)])
     levels = sorted(rnd.sample(range(1, 8), rnd.randint(1, 3)))
+    if seed % 2:
+        rnd.shuffle(levels)                       # entry i of every *_ci list belongs to the i-th REQUESTED quantile, whatever the order of the request
     form = rnd.choice(["callable", "dict"])
     feats = [[rnd.choice("ab") + str(rnd.randint(0, 1 if k else 2)) for _ in range(n)] for k in range(ncf + nsf)]
     names = ["cf0", "cf1"][:ncf] + ["sf0", "sf1"][:nsf]
@@ -103,8 +105,9 @@ def _frame(job):
         ok = all(_same_shape(c, point, f"{name}_ci[{k}]", out, s2, detail) for k, c in enumerate(ci))
         if not ok:
             continue
-        for k in range(len(ci) - 1):
-            a, b = _vals(ci[k]), _vals(ci[k + 1])
+        by_level = [ci[j] for j in sorted(range(len(ci)), key=lambda j: levels[j])]
+        for k in range(len(by_level) - 1):
+            a, b = _vals(by_level[k]), _vals(by_level[k + 1])
             if a.shape != b.shape or np.any(a > b + 1e-12):
                 out.append(({"kind": "ordering", **s2}, f"{name}_ci not non-decreasing in the quantile: {a.tolist()} then {b.tolist()}", detail))
         for c, c2 in zip(ci, ci2):
